@@ -314,8 +314,7 @@ def run(ctx):
     ctx.model_check(d, "MCConsDec", "MCConsDecRepaired", env={"CASES": os.devnull}, workers=2, timeout=600)
     rnd = random.Random(ctx.seed)
     if q:
-        jobs = [("MCConsSel", "MCConsSelBug_" + b) for b in rnd.sample(SEL_BUGS, 2)] + \
-               [("MCConsDec", "MCConsDecBug_" + b) for b in rnd.sample(DEC_BUGS, 2)] + STRICT
+        jobs = [("MCConsSel", "MCConsSelBug_" + rnd.choice(SEL_BUGS)), ("MCConsDec", "MCConsDecBug_" + rnd.choice(DEC_BUGS))] + STRICT
     else:
         jobs = [("MCConsSel", "MCConsSelBug_" + b) for b in SEL_BUGS] + [("MCConsDec", "MCConsDecBug_" + b) for b in DEC_BUGS] + STRICT
     mutants(ctx, d, jobs, 3)
